@@ -147,6 +147,7 @@ HAMS = {
     "0.5*Z0*Z1 + 1.0*Y0 - 0.5*Y1": [({0: "Z", 1: "Z"}, Fraction(1, 2)), ({0: "Y"}, Fraction(1)), ({1: "Y"}, Fraction(-1, 2))],
     "0.5*X0 + 0.5*X0 + 1.0*Z0*X1": [({0: "X"}, Fraction(1, 2)), ({0: "X"}, Fraction(1, 2)), ({0: "Z", 1: "X"}, Fraction(1))],
     "2*I + 1.5*Z1 - 0.5*X0*Y1": [({}, Fraction(2)), ({1: "Z"}, Fraction(3, 2)), ({0: "X", 1: "Y"}, Fraction(-1, 2))],
+    "1.5*X1 + 0.75*I - 0.5*Z0*Z1 + 0.25*Y0": [({1: "X"}, Fraction(3, 2)), ({}, Fraction(3, 4)), ({0: "Z", 1: "Z"}, Fraction(-1, 2)), ({0: "Y"}, Fraction(1, 4))],
 }
 
 
@@ -289,7 +290,7 @@ OBSERVED = f"imaginary part {{im}}: raised={{raised}}"
             L = circ_m.Layer()
             ev = L.evolution()
             t = trig.Poly.var("t")
-            ham = _Ham([_Term(o, c) for o, c in spec if o])  # derivative is defined for non-constant terms
+            ham = _Ham([_Term(o, c) for o, c in spec])  # constant terms included: their two shifted circuits cancel
             n = 2
             circs, factors = ev.time_evolution_derivatives(ham, t, n_steps=n_steps)
             U = ev.time_evolution(ham, t, n_steps=n_steps).to_unitary()
@@ -326,7 +327,8 @@ OBSERVED = f"imaginary part {{im}}: raised={{raised}}"
                 continue
             obs.append(Ob(f"C16.deriv[{hname}|n={ns}]", "finite", [EV + ":time_evolution_derivatives", EV + ":_generate_circuit_sequence"],
                           deriv_ob(hname, spec, ns),
-                          f"sum_k f_k U_k^† O U_k = d/dt(U^† O U) for all t and all 16 matrix units O ({hname}, n_steps={ns})", timeout=600))
+                          f"sum_k f_k U_k^† O U_k = d/dt(U^† O U) for all t and all 16 matrix units O ({hname}, n_steps={ns})", timeout=600,
+                          fallback=vprop.enum_ob("x", [], lambda: [2], _check_native, "").run))
     # ---- sum structure for ALL Hamiltonians and step counts (Engine V over abstract per-term blocks)
     obs.append(_sum_structure_ob())
     obs.append(vprop.enum_ob("C16.native.enum", [EV + ":time_evolution_for_term", EV + ":time_evolution", EV + ":time_evolution_derivatives"],
@@ -384,7 +386,7 @@ def _replay_deriv(spec, n_steps, t):
 import numpy as np
 from orquestra.quantum.evolution import time_evolution, time_evolution_derivatives
 from orquestra.quantum.operators import PauliTerm, PauliSum
-H = PauliSum([{', '.join(f"PauliTerm({dict(o)!r}, {float(c)!r})" for o, c in spec if o)}])
+H = PauliSum([{', '.join(f"PauliTerm({(dict(o) or 'I0')!r}, {float(c)!r})" for o, c in spec)}])
 t, n = {t!r}, {n_steps}
 rng = np.random.default_rng(0)
 A = rng.normal(size=(4, 4)) + 1j * rng.normal(size=(4, 4)); O = A + A.conj().T
